@@ -105,6 +105,11 @@ func c06Run(j *orch.Job, r *orch.Result) error {
 		T = e.PIP10 + 16
 	}
 	tip := T + 16
+	zeroQuoteAt := uint32(0)
+	if p.Era == "pip10" {
+		tip = T + 19
+		zeroQuoteAt = T + 16 // a rated block whose pUSD quote is 0 (stakers and miners disagree on it beyond the band)
+	}
 	mo := gen.DefaultMixedOpts()
 	mo.TxPerBlock = 2
 	mo.UngradedProb, mo.NoOPRProb = 0, 0
@@ -157,6 +162,29 @@ func c06Run(j *orch.Job, r *orch.Result) error {
 	if p.Era == "bankpre" {
 		// entered in the last block before the conversion limit, executed in the first block under it
 		add(&c06Case{Name: "C-executes-at-limit-activation", Kind: "conversion", Fund: F, Amount: 30 * 1e8, Conv: dst, At: []uint32{e.ConversionLimit - 1, e.ConversionLimit + 1}, Times: []int{1, 1}, MustExecute: true, Metamorphic: true})
+	}
+	if zeroQuoteAt != 0 {
+		// held one block before the zero-quote block, refused there (its source has no rate), written again later:
+		// it has been considered once and for all
+		add(&c06Case{Name: "C-rejected-at-zero-quote-block", Kind: "conversion", Fund: F, Amount: 30 * 1e8, Conv: dst, At: []uint32{zeroQuoteAt - 1, zeroQuoteAt + 1, zeroQuoteAt + 2}, Times: []int{1, 1, 1}, MustNotExec: true, Metamorphic: true})
+		m.Schedule(zeroQuoteAt, func(v *gen.View, s *forge.BlockSpec) {
+			sp := map[string]uint64{}
+			for k, x := range m.W.Prices {
+				sp[k] = x
+			}
+			sp["USD"] = m.W.Prices["USD"] * 2
+			var st []forge.Key
+			for _, a := range gen.TopPEG(v.Balances, 100) {
+				for _, k := range m.Actors {
+					if k.FA() == a && !k.IsEth() && len(st) < 30 {
+						st = append(st, k)
+					}
+				}
+			}
+			if len(st) >= 25 {
+				s.SPR = m.W.StdSPRs(zeroQuoteAt, st, sp)
+			}
+		})
 	}
 	if T >= e.OneWaypFCT {
 		add(&c06Case{Name: "C-rejected-pFCT", Kind: "conversion", Fund: F, Amount: 30 * 1e8, Conv: fat2.PTickerFCT, At: []uint32{T, T + 2, T + 2}, Times: []int{1, 1, 1}, MustNotExec: true, Metamorphic: true})
